@@ -17,7 +17,7 @@ ID = "C14"
 RULE = (
     "Linear chains of 2-6 Select/Where/SelectMany stages over ds in function form: producer stages package values "
     "(scalars, objects, member sequences) into tuples/lists/dicts nested up to 3 deep with field names carrying the "
-    "reserved prefix f_, consumer stages only project with constant indices/keys/attribute names (incl. nested Select/"
+    "reserved prefix f_ (or named like attributes of python's dict: values, items, keys, get, copy, pop, update), consumer stages only project with constant indices/keys/attribute names (incl. nested Select/"
     "Where over a packaged sequence that refers to other packaged fields, called lambdas and First() over packaged "
     "sequences); the last stage returns a scalar/object (variant: a final package). All binder-naming schemes. "
     "Non-trivial = >=2 producer/consumer boundaries, or one boundary that crosses a Where or SelectMany stage. "
@@ -26,8 +26,8 @@ RULE = (
 ASSUMPTIONS = [
     "First() is applied to sequences of packages, never to a sequence of sequences of packages (First(First(..))[i] inside one "
     "stage is not inter-stage packaging and is not resolved by the simplifier; excluded from the domain).",
-    "The data model has no subscriptable members and no member whose name starts with f_, so any remaining Subscript or "
-    "f_ attribute is a left-over projection.",
+    "The data model has no subscriptable members and no member whose name starts with f_ or is one of the dict-method names, so any remaining Subscript or "
+    "such attribute is a left-over projection.",
     "In the final-package variant constructions may remain only in number <= the tuple/list/dict constructors in the "
     "final element type (known to the generator).",
     "Result equality is C02's job; it is evaluated here too as a guard against a vacuous pass.",
@@ -67,7 +67,7 @@ def _has_seq(t):
 @st.composite
 def _case(draw, maxstages):
     naming = draw(st.sampled_from(["distinct", "same", "reuse", "reuse", "argn", "astnames"]))
-    cfg = typed.Cfg(naming=naming, method_form=0.0, odd_selectors=False, ifexp=draw(st.booleans()), first_on_seq=False, kwonly_in_called=True)
+    cfg = typed.Cfg(naming=naming, method_form=0.0, odd_selectors=False, ifexp=draw(st.booleans()), first_on_seq=False, kwonly_in_called=True, dict_method_keys=True)
     cx = typed.Ctx(draw, cfg)
     env = [("ds", typed.S(typed.EVT))]
     n = draw(st.integers(2, maxstages))
@@ -149,7 +149,7 @@ def _projections(node):
     for n in ast.walk(node):
         if isinstance(n, ast.Subscript):
             out.append(n)
-        if isinstance(n, ast.Attribute) and n.attr.startswith("f_"):
+        if isinstance(n, ast.Attribute) and (n.attr.startswith("f_") or n.attr in typed.DICT_METHOD_KEYS):
             out.append(n)
     return out
 
